@@ -52,6 +52,9 @@ func c05(tier string) []*explore.Scenario {
 	// must not reach - or create - a handler invocation that does not own the id
 	out = append(out, donors("C05", []*explore.Scenario{c14One([][2]string{{"Bidi", "lateempty"}}, 1), c14One([][2]string{{"CStream", "lateempty"}}, 1), c14One([][2]string{{"Bidi", "reset"}}, 1)})...)
 	out = append(out, c05FailedWrite(2), c05FailedWrite(1))
+	// every short sequence of handler-side stream operations (SendHeader, SetHeader, sends, trailers): the call's
+	// response envelopes keep their order on the wire
+	out = append(out, handlerSeqs("C05", tier)...)
 	// per-call envelope order through the proxy + demultiplexer topology
 	out = append(out, c16RPCFam("C05", "2streams", true, 1), c16RPCFam("C05", "unary+stream", false, 1))
 	for _, sc := range []*explore.Scenario{c16Burst(12, 1)} {
